@@ -8,9 +8,9 @@ SHARD = 200
 SHRINK_KEYS = ["steps"]
 RULE = ("histories with up to 5 live handles starting from a random BQM (float64/float32/object dtype), QM, CQM, SampleSet or Variables: "
         "2-7 (thorough 2-14) steps of copy-producing calls (copy(), copy.copy, copy.deepcopy, pickle round trip, BQM(bqm), QM.from_bqm, "
-        "arithmetic operators, relabel_variables / relabel_variables_as_integers / change_vartype / spin_to_binary / fix_variables with "
+        "arithmetic operators incl. neutral operands on either side (0+a, 0.0+a, a+0, 1*a, a/1, sum([a])), relabel_variables / relabel_variables_as_integers / change_vartype / spin_to_binary / fix_variables with "
         "inplace=False, SampleSet copy/relabel/change_vartype/slice (sorted_by None or energy)/truncate/lowest/filter/aggregate/"
-        "concatenate/keep/drop/append_variables/append_data_vectors/from_samples), cqm.add_constraint_from_model(copy=True/False) with a live "
+        "concatenate (single set, and several LIVE sets whose label order / vartype differ, each input checked unchanged)/keep/drop/append_variables/append_data_vectors/from_samples), cqm.add_constraint_from_model(copy=True/False) with a live "
         "model (moved-from model compared with an empty one and re-used), cqm.add_discrete / add_discrete_from_comparison / add_discrete_from_model "
         "of a live one-hot model with every combination of check_overlaps and copy given or defaulted, creation of spin/binary/objective views, and random in-place edits "
         "through any handle incl. views; after every step every live handle is snapshotted bit for bit (coefficients in iteration order, "
